@@ -289,6 +289,18 @@ func genProto(r *vh.Rand, w *vh.LineWriter, next int, tier string) int {
 		if g.r.Chance(1, 5) {
 			u.ShardID, u.ReplicaID = ^uint64(0), ^uint64(0)-uint64(g.r.Intn(2))
 		}
+		if i%8 == 3 {
+			// worst-case head: every varint of the head and of the State takes 10
+			// bytes, no entries (entries only add slack to SizeUpperLimit)
+			big := func() uint64 { return 1<<63 + g.r.U64()>>1 }
+			u.ShardID, u.ReplicaID = big(), big()
+			u.State = pb.State{Term: big(), Vote: big(), Commit: big()}
+			u.EntriesToSave = nil
+			if i%16 == 3 {
+				u.Snapshot = g.sn()
+				u.Snapshot.Index = 1 + g.r.U64()>>1
+			}
+		}
 		tw := &tw{}
 		tw.u(u.ShardID); tw.u(u.ReplicaID); tw.state(&u.State); tw.entries(u.EntriesToSave); tw.sn(&u.Snapshot)
 		emit("UPD%s", tw.b.String())
